@@ -294,6 +294,10 @@ impl<B, OC, SC, L> Storage<B, OC, SC, L> {
     { unimplemented!() }
 }
 
+// the recursion guard of StorageResolver::get refuses a key that is already being loaded, and (since /repo aebe012) a 33rd nested
+// typed load; it comes before the caches in both configurations
+pub open spec fn guard_refuses(chain: Seq<PlainRef>, key: PlainRef) -> bool { chain.contains(key) || chain.len() >= 32 }
+
 // ---- R7 helpers (trusted, L0) ---------------------------------------------------------------------------------------
 #[verifier::external_body]
 fn hoist_contains(v: &Vec<PlainRef>, key: &PlainRef) -> (r: bool) ensures r == v@.contains(*key)
